@@ -1,0 +1,12 @@
+//go:build !verif
+
+package url
+
+// Verification hooks (see verif_on.go). With the "verif" build tag off they are
+// empty and inlined away.
+
+func verifEnter() {}
+
+func verifTick(State, bool) {}
+
+func verifCursor() {}
